@@ -9,7 +9,7 @@ the `DrawTarget` trait defaults (tools/tr_adapt.py; C03 and C04).
 For each case a small edit is applied to the Rust text of a SCRATCH COPY of /repo's `src` and `core/src` trees
 (/tmp/vw/adaptgen-repo, removed at the end; /repo itself is never touched, not even its .git), the translator
 regenerates `AdaptSrc.lean` from it, and the theorems of lean/EG/Props/C03/GeneratedAdapters.lean and
-lean/EG/Props/C04/GeneratedAdapters.lean are re-checked against the regenerated file. Nothing inside the verif tree
+lean/EG/Props/C04/GeneratedAdapters.lean (and lean/EG/Props/C03/GeneratedCroppedIter.lean) are re-checked against the regenerated file. Nothing inside the verif tree
 is written: the regenerated file and its .olean live in a temp directory put in front of LEAN_PATH (requires an
 up-to-date `lake build` of the two modules, which the script runs first).
 
@@ -34,6 +34,7 @@ REPO = os.environ.get("EG_REPO", "/repo")
 LEAN = os.path.join(V, "lean")
 PROPS3 = os.path.join(LEAN, "EG", "Props", "C03", "GeneratedAdapters.lean")
 PROPS4 = os.path.join(LEAN, "EG", "Props", "C04", "GeneratedAdapters.lean")
+PROPSI = os.path.join(LEAN, "EG", "Props", "C03", "GeneratedCroppedIter.lean")
 SCRATCH = os.environ.get("ADAPT_DEMO_SCRATCH", "/tmp/vw/adaptgen-repo")
 TR = "src/draw_target/translated.rs"
 CL = "src/draw_target/clipped.rs"
@@ -41,6 +42,7 @@ CR = "src/draw_target/cropped.rs"
 CC = "src/draw_target/color_converted.rs"
 CORE = "core/src/draw_target/mod.rs"
 PIX = "src/iterator/pixel.rs"
+CONT = "src/iterator/contiguous.rs"
 SHAPE = ["all_adapter_methods_are_tail_calls", "src_adapter_methods_return_parent_result"]
 
 # (name, kind, file, old text, new text, theorems expected to break (subset check))
@@ -117,7 +119,32 @@ CASES = [
      "impl<T> Dimensions for Clipped<'_, T>",
      "impl<T> Drop for Clipped<'_, T>\nwhere\n    T: DrawTarget,\n{\n    fn drop(&mut self) {}\n}\n\nimpl<T> Dimensions for Clipped<'_, T>",
      ["adapt_untranslated_pinned"]),
+    # the colour iterator of `Clipped::fill_contiguous` (iterator/contiguous.rs, theorems in GeneratedCroppedIter.lean)
+    ("contiguous::Cropped::new: `iter.nth(initial_skip)` (skips one colour too many)", "mutation", CONT,
+     "            iter.nth(initial_skip - 1);",
+     "            iter.nth(initial_skip);",
+     ["contiguous_Cropped_new_src_eq_model"]),
+    ("contiguous::Cropped::new: `row_skip` is the full width", "mutation", CONT,
+     "row_skip: size.width.saturating_sub(crop_area.size.width) as usize,",
+     "row_skip: size.width as usize,",
+     ["contiguous_Cropped_new_src_eq_model"]),
+    ("contiguous::Cropped::next: a new row restarts at `x = 0`", "mutation", CONT,
+     "            self.x = 1;\n",
+     "            self.x = 0;\n",
+     ["contiguous_Cropped_next_src_eq_model"]),
+    ("contiguous::Cropped::next: the row skip is dropped (`self.iter.next()`)", "mutation", CONT,
+     "                self.iter.nth(self.row_skip)",
+     "                self.iter.next()",
+     ["contiguous_Cropped_next_src_eq_model"]),
+    ("contiguous::Cropped::next: `self.y > self.size.height` ends the iterator one row late", "mutation", CONT,
+     "if self.y >= self.size.height || self.size.width == 0 {",
+     "if self.y > self.size.height || self.size.width == 0 {",
+     ["contiguous_Cropped_next_src_eq_model"]),
     # harmless rewrites
+    ("contiguous::Cropped::next: the early `return None` written as if/else-if", "harmless", CONT,
+     "        if self.y >= self.size.height || self.size.width == 0 {\n            return None;\n        }\n\n        if self.x < self.size.width {",
+     "        if self.y >= self.size.height || self.size.width == 0 {\n            None\n        } else if self.x < self.size.width {",
+     []),
     ("Translated::fill_contiguous: the local renamed", "harmless", TR,
      "        let area = area.translate(self.offset);\n        self.parent.fill_contiguous(&area, colors)",
      "        let moved = area.translate(self.offset);\n        self.parent.fill_contiguous(&moved, colors)",
@@ -220,7 +247,8 @@ def main():
     if only and only[0] == "--seeds":
         only = only[1:]
         cases = seed_cases()
-    rc, out = run(["lake", "build", "EG.Props.C03.GeneratedAdapters", "EG.Props.C04.GeneratedAdapters"], cwd=LEAN)
+    rc, out = run(["lake", "build", "EG.Props.C03.GeneratedCroppedIter", "EG.Props.C03.GeneratedAdapters",
+                   "EG.Props.C04.GeneratedAdapters"], cwd=LEAN)
     if rc != 0:
         print("the unchanged tree does not build the GeneratedAdapters modules:\n" + out[-2000:])
         return 2
@@ -228,7 +256,7 @@ def main():
     lean_path = lean_path.strip().splitlines()[-1]
     real = [d for d in lean_path.split(":") if os.path.isdir(os.path.join(d, "EG"))][0]
     tmp = tempfile.mkdtemp(prefix="adaptdemo-")
-    th3, th4 = list_theorems(PROPS3), list_theorems(PROPS4)
+    th3, th4, thi = list_theorems(PROPS3), list_theorems(PROPS4), list_theorems(PROPSI)
     bad = 0
     try:
         fresh_scratch()
@@ -257,8 +285,9 @@ def main():
             files, info = tr_adapt.generate(SCRATCH)
             gen_dir = os.path.join(tmp, f"case{idx}")
             os.makedirs(os.path.join(gen_dir, "src", "EG", "Generated"))
-            # overlay of the project's build output: everything symlinked except EG/Generated/AdaptSrc.* and the two
-            # theorem modules (C04's imports C03's, which is recompiled into the overlay when it still builds)
+            # overlay of the project's build output: everything symlinked except EG/Generated/AdaptSrc.* and the three
+            # theorem modules, which are recompiled in import order (GeneratedCroppedIter <- C03/GeneratedAdapters <-
+            # C04/GeneratedAdapters)
             lib = os.path.join(gen_dir, "lib")
             os.makedirs(os.path.join(lib, "EG", "Generated"))
             os.makedirs(os.path.join(lib, "EG", "Props", "C03"))
@@ -272,7 +301,7 @@ def main():
                 if e != "C03":
                     os.symlink(os.path.join(real, "EG", "Props", e), os.path.join(lib, "EG", "Props", e))
             for e in os.listdir(os.path.join(real, "EG", "Props", "C03")):
-                if not e.startswith("GeneratedAdapters."):
+                if not (e.startswith("GeneratedAdapters.") or e.startswith("GeneratedCroppedIter.")):
                     os.symlink(os.path.join(real, "EG", "Props", "C03", e), os.path.join(lib, "EG", "Props", "C03", e))
             gsrc = os.path.join(gen_dir, "src", "EG", "Generated", "AdaptSrc.lean")
             open(gsrc, "w").write(files["AdaptSrc.lean"])
@@ -285,16 +314,17 @@ def main():
                 broken.add("(generated file does not compile: " + out1.strip().splitlines()[0][:160] + ")")
             else:
                 env2 = dict(os.environ, LEAN_PATH=lib + ":" + lean_path)
-                o3 = os.path.join(lib, "EG", "Props", "C03", "GeneratedAdapters.olean")
-                b3 = broken_in(PROPS3, th3, env2, o3)
-                broken |= b3
-                if b3:
-                    # in a real check C04's module then does not build at all (its import has errors). To show what
-                    # C04's OWN theorems make of the change, they are re-checked against the regenerated AdaptSrc with
-                    # the last good build of C03's module standing in for the import.
-                    if os.path.lexists(o3):
-                        os.remove(o3)
-                    os.symlink(os.path.join(real, "EG", "Props", "C03", "GeneratedAdapters.olean"), o3)
+                for (pf, ths, mod) in ((PROPSI, thi, "GeneratedCroppedIter"), (PROPS3, th3, "GeneratedAdapters")):
+                    o = os.path.join(lib, "EG", "Props", "C03", mod + ".olean")
+                    bb = broken_in(pf, ths, env2, o)
+                    broken |= bb
+                    if bb:
+                        # in a real check the importing modules then do not build at all. To show what THEIR OWN theorems
+                        # make of the change, they are re-checked against the regenerated AdaptSrc with the last good
+                        # build of this module standing in for the import.
+                        if os.path.lexists(o):
+                            os.remove(o)
+                        os.symlink(os.path.join(real, "EG", "Props", "C03", mod + ".olean"), o)
                 broken |= broken_in(PROPS4, th4, env2)
             model_eq_broken = [b for b in broken if b.endswith("_src_eq_model")]
             if kind == "mutation":
